@@ -53,6 +53,20 @@ def run(ctx):
     c02.check_records(ctx, keep, classify=classify, need_reference=True)
     # the loops of the METRICS-mode program against the Lean model compiler (C01/C02 theorems): observers read through
     c02.check_model(ctx, [r for r in keep if r["ok"] and not classify(r["case"], r)], only_model_class=True)
+    # the tensor objects of the METRICS-mode program: rank ids / aliasing (C07.chk_sound) and origin of every in-place update
+    # (C07.tchk_sound) - the instrumentation neither renames nor modifies a user input, in any execution
+    import c07
+    okr = [r for r in keep if r["ok"] and not classify(r["case"], r) and "user" in r]
+    reqs = [{"op": op, "tree": r["tree"], "inputs": c07.input_vars(r)} for r in okr for op in ("rankheap", "taint_check")]
+    ans = common.lean_batch(reqs)
+    for i, r in enumerate(okr):
+        for a, what in ((ans[2 * i], "rank ids / aliasing"), (ans[2 * i + 1], "origin of in-place updates")):
+            if "error" in a:
+                raise common.InternalError("lean: " + a["error"])
+            ctx.ob(a["ok"]); ctx.stat("metrics_tree_object_checks")
+            if not a["ok"]:
+                ctx.violation(dict(kind="metrics-objects", yaml=r["yaml"], yaml_text=specs.dump_yaml(r["yaml"]), text=r["text"], reason="%s: %s" % (what, a["why"]),
+                                   obligation="RankHeap.chk / Taint.chk (C07.chk_sound, C07.tchk_sound) accept the metrics-mode tree"), False)
     witnesses(ctx)
     for f in ctx.findings:
         if f["id"] not in [h for h, _ in ctx.known_hits]:
